@@ -82,6 +82,8 @@ fn run_worker(page_pool: PagePool, command_rx: Receiver<IoPacket>) {
 
     // Indicates whether the worker detected that it should shutdown.
     let mut shutdown = false;
+    #[cfg(feature = "verif")]
+    let mut held: Vec<(Sender<CompleteIo>, CompleteIo)> = Vec::new();
 
     loop {
         // 1. process completions.
@@ -138,7 +140,19 @@ fn run_worker(page_pool: PagePool, command_rx: Receiver<IoPacket>) {
                 #[cfg(feature = "verif")]
                 let result = crate::verif::io::on_complete(&command, result);
                 let complete = CompleteIo { command, result };
+                #[cfg(feature = "verif")]
+                if crate::verif::io::reverse_completions() {
+                    held.push((completion_sender, complete));
+                    continue;
+                }
                 let _ = completion_sender.send(complete);
+            }
+            // verif: completions held back are delivered newest first once nothing is in flight.
+            #[cfg(feature = "verif")]
+            if pending.is_empty() && retries.is_empty() {
+                for (completion_sender, complete) in held.drain(..).rev() {
+                    let _ = completion_sender.send(complete);
+                }
             }
         } else if shutdown {
             // No pending IOs and we are shutting down. That means we can exit the worker.
